@@ -61,3 +61,7 @@ func obj(kv ...interface{}) map[string]interface{} {
 	}
 	return m
 }
+
+// unclassified stands, in an observation, for "an error whose class the harness cannot tell from
+// the message text"; ./check lets it agree with any error class of the model.
+const unclassified = "?unclassified"
